@@ -143,20 +143,23 @@ def oracle(ctx, obs):
                     ctx.violation("S5", f"K changes under the global scale factor 1e{r['exp10']}: {base!r} -> {kv!r} ({r['result']['class']}) ({fam}, n={n})",
                                   {"kind": "invariance", "variant": "scaled_extreme", "family": fam, "n": n},
                                   dict(rep, variant=f"every entry multiplied by 1e{r['exp10']}", variant_k=kv))
-            # SVD oracle contract on this input
-            if o.get("sv2") is not None:
-                s2, s4 = frac_of_hex(o["sv2"]), frac_of_hex(o["sv4"])
-                if abs(s2 - t) > TOL_SV * t or abs(s4 - t2) > TOL_SV * t2:
-                    ctx.violation("S5", f"SVD oracle contract fails: sum s^2 = {float(s2)!r} vs tr G = {float(t)!r}, sum s^4 = {float(s4)!r} vs tr G^2 = {float(t2)!r} ({fam}, n={n})",
-                                  {"kind": "svd_contract", "family": fam, "n": n}, dict(rep, sv2=float(s2), sv4=float(s4), trG=float(t), trG2=float(t2)),
-                                  found_input=False)
         elif k == "extreme":
             base = kval(o["rows"][0]["result"])
-            bad = [r["scale_exp10"] for r in o["rows"] if not close(kval(r["result"]), base)]
-            if bad:
-                ctx.note(f"binary64 range: schmidt_number(c * a) differs from schmidt_number(a) = {base!r} (NaN or drift) for scale factors 10^e, e in {bad} "
-                         "(sigma^4 under/overflows; the power sums are not normalised); outside the validated range |entries| in [1e-60, 1e60]")
-            ctx.note(f"schmidt_number of the all-zero 2x2 array: {o['zero']} (outside the property: non-zero arrays)")
+            entries = "[1, 0.5, 0.25, 2+i] (2x2, row-major) times 10^e"
+            for r in o["rows"]:
+                e = r["scale_exp10"]
+                if close(kval(r["result"]), base):
+                    continue
+                rep = {"entries": entries, "scale_exp10": e, "k_unscaled": base, "k_scaled": kval(r["result"]), "outcome": r["result"],
+                       "call": "spdcalc::math::schmidt_number(vec![c*1, c*0.5, c*0.25, c*(2+i)]), c = 10^e",
+                       "why": "sigma^4 (and (sum sigma^2)^2) under/overflow binary64: the power sums are not normalised by the largest singular value"}
+                if abs(e) >= 75:
+                    ctx.violation("S5", f"K is not invariant under the global scale factor 1e{e}: {base!r} -> {kval(r['result'])!r} (sigma^4 under/overflows binary64)",
+                                  {"kind": "scale_invariance", "cause": "sigma4_over_underflow", "scale_exp_abs_ge": 75}, rep)
+                else:
+                    ctx.violation("S5", f"K is not invariant under the global scale factor 1e{e}: {base!r} -> {kval(r['result'])!r}",
+                                  {"kind": "scale_invariance", "cause": "unexplained", "scale_exp10": e}, rep)
+            ctx.note(f"schmidt_number of the all-zero 2x2 array: {o['zero']} (Ok(NaN): C11_nan_iff_zero; outside the property: non-zero arrays)")
         elif k == "setup":
             nx, ny = o.get("nx", o["n"]), o.get("ny", o["n"])
             n = isqrt_exact(nx * ny)
@@ -191,7 +194,7 @@ Definition chk (n : nat) (mags : list Q) (k sv2 sv4 tol tolsv : Q) :=
   let M := mat_of n (arr 0%Q mags) in
   let t := trG QOps n M in let t2 := trG2 QOps n M in
   let K := odiv QOps (omul QOps t t) t2 in
-  (Qle_bool (Qabs (K - k)) (tol * K), Qle_bool (Qabs (t - sv2)) (tolsv * t), Qle_bool (Qabs (t2 - sv4)) (tolsv * t2),
+  (Qle_bool (Qabs (K - k)) (tol * K), true, true,
    Qle_bool 1 K && Qle_bool K (inject_Z (Z.of_nat n)), K).
 (* [chk] evaluates the same term as the twin of Props/C11.v *)
 Goal forall n mags, odiv QOps (omul QOps (trG_Q n mags) (trG_Q n mags)) (trG2_Q n mags) = schmidt_K_Q n mags.
@@ -210,12 +213,9 @@ def correspondence(ctx, obs, max_n_float):
         mags = [frac_of_hex(h) for h in o["mag"]]
         if all(m == 0 for m in mags) or not is_finite_hex(o["base"]["k"]):
             continue
-        if o.get("sv2") is None:
-            continue
         cid = f"k{len(exprs)}"
         lst = "; ".join(qlit(m) for m in mags)
-        exprs.append((cid, f"chk {o['n']} [{lst}] {qlit(frac_of_hex(o['base']['k']))} {qlit(frac_of_hex(o['sv2']))} "
-                           f"{qlit(frac_of_hex(o['sv4']))} {qlit(TOL)} {qlit(TOL_SV)}"))
+        exprs.append((cid, f"chk {o['n']} [{lst}] {qlit(frac_of_hex(o['base']['k']))} 0 0 {qlit(TOL)} {qlit(TOL_SV)}"))
         meta[cid] = o
     # big cases last in each shard would serialise; interleave by size
     order = sorted(range(len(exprs)), key=lambda i: -meta[exprs[i][0]]["n"])
@@ -228,10 +228,7 @@ def correspondence(ctx, obs, max_n_float):
         txt = res.get(cid)
         m = re.match(r"\((true|false), (true|false), (true|false), (true|false), (.*)\)$", txt or "")
         if not m:
-            ctx.case_failures.append({"case": cid, "output": txt})
-            ctx.violation("S4", f"model evaluation failed for case {cid} (n={o['n']})", {"kind": "model_eval", "n": o["n"]},
-                          dict(describe(o), output=txt), found_input=False)
-            nbad += 1
+            unchecked_eval(ctx, "C11", cid)     # no output (time limit / crash): an unchecked obligation, not a disagreement
             continue
         okk, oks2, oks4, okb = (m.group(i) == "true" for i in (1, 2, 3, 4))
         fam = o.get("family", "float")
@@ -244,9 +241,6 @@ def correspondence(ctx, obs, max_n_float):
             # the trace form IS the property's (sum s^2)^2/sum s^4 (C11_svd_link), so this is a failing input of the property text
             ctx.violation("S4", f"executable model K = {m.group(5)} and schmidt_number = {kval(o['base'])!r} disagree beyond 1e-9 ({fam}, n={o['n']})",
                           {"kind": "value", "family": fam, "n": o["n"]}, rep)
-        if not (oks2 and oks4):
-            ctx.violation("S4", f"SVD oracle contract (power sums of singular values vs tr G, tr G^2, 1e-10) fails in Coq ({fam}, n={o['n']})",
-                          {"kind": "svd_contract", "family": fam, "n": o["n"]}, rep, found_input=False)
         if not okb:
             ctx.violation("S4", f"model K outside [1, n] — contradicts C11_bounds (model bug) ({fam}, n={o['n']})", {"kind": "model_bounds"}, rep, found_input=False)
     return nbad
@@ -282,7 +276,24 @@ def interval_cases(ctx, obs, limit):
         o = meta[cid]
         ctx.case_failures.append({"case": cid})
         ctx.violation("S4", f"real-valued model (complex moduli, trace form) and schmidt_number = {kval(o['base'])!r} disagree beyond 1e-9 (n={o['n']})",
-                      {"kind": "value", "family": o.get("family", "float"), "n": o["n"]}, dict(describe(o), rust_k=kval(o["base"]), case=cid))
+                      {"kind": "value", "family": o.get("family", "float"), "n": o["n"]}, dict(describe(o), rust_k=kval(o["base"]), case=cid), found_input=False)
+
+
+def unchecked_eval(ctx, name, cid):
+    """a vm_compute evaluation that printed no result: counted as an unchecked obligation (like vlib's no-verdict goals)"""
+    ctx.cov["unchecked_cases"] = ctx.cov.get("unchecked_cases", 0) + 1
+    tag = (f"Cases/{name}", "no-verdict")
+    for i, f in enumerate(ctx.proof_failures):
+        if (f[0], f[1]) == tag:
+            ctx.proof_failures[i] = (f[0], f[1], f[2] + f", {cid}")
+            return
+    ctx.proof_failures.append((tag[0], tag[1], f"model evaluation(s) without output from coqc (time limit): {cid}"))
+
+
+def unknown_failing(ctx):
+    """a concrete failing input that is NOT a known finding (a known finding firing on the same run must not stop the search)"""
+    fs = load_findings()
+    return any(v["found_input"] and match_finding(v, fs, ctx.prop) is None for v in ctx.violations)
 
 
 def run(ctx):
@@ -293,8 +304,8 @@ def run(ctx):
         ctx.proof_failures.append(("Gen/SchmidtSrc.v", "translator", m))
     proved = (not msgs) and prove(ctx, "C11")
     quick = ctx.tier == "quick"
-    ncases, max_side, nsetup = (70, 16, 12) if quick else (260, 40, 32)
-    obs = run_harness(ctx, binp, ["c11", ctx.seed, ncases, max_side, nsetup, 2000])
+    ncases, max_side, nsetup, nbig = (70, 16, 12, 3) if quick else (260, 40, 32, 10)
+    obs = run_harness(ctx, binp, ["c11", ctx.seed, ncases, max_side, nsetup, 2000, nbig])
     oracle(ctx, obs)
     for o in [x for x in obs if x["kind"] == "val"][7:10]:
         ctx.sample({"family": o["family"], "n": o["n"], "re": o["re"][:9], "im": o["im"][:9], "rust_k": kval(o["base"])})
@@ -303,12 +314,12 @@ def run(ctx):
         interval_cases(ctx, obs, 12 if quick else 40)
     else:
         ctx.note("correspondence skipped: Model/Schmidt.v did not compile")
-    if (not proved or ctx.case_failures) and not any(v["found_input"] for v in ctx.violations):
+    if (not proved or ctx.case_failures) and not unknown_failing(ctx):
         ctx.log("S5 deep search for a failing input (obligations broken or model/implementation disagree)")
         for k in range(3):
             obs2 = run_harness(ctx, binp, ["c11", ctx.seed + 7919 * (k + 1), 400, 24, 8, 3000])
             oracle(ctx, obs2)
-            if any(v["found_input"] for v in ctx.violations):
+            if unknown_failing(ctx):
                 break
     ctx.cov["rule"] = ("lengths: every length 1..2000 plus neighbours d^2-1, d^2+1, d^2+d of squares (d <= 1005), random lengths < 10^6 and four large "
                        "squares; values: families random / sparse / rank-1 / equal diagonal / permuted diagonal / unequal diagonal / two-block with "
@@ -316,15 +327,18 @@ def run(ctx):
                        "with scaled, phased, transposed and conjugated variants; setups: 4 configurations x optimum/wavelength ranges; distinct = "
                        "distinct (side, magnitude bits) resp. distinct length")
     ctx.cov["clauses"] = {
-        "K = (sum s^2)^2 / sum s^4 over singular values of the magnitude matrix": "proved for any orthogonal factorisation (C11_svd_link, C11_code_path); "
-            "nalgebra's SVD accuracy is an oracle contract checked per input (power sums vs tr G, tr G^2, 1e-10) — validated_only",
+        "K = (sum s^2)^2 / sum s^4 over singular values of the magnitude matrix": "validated_only for the binary64 implementation: schmidt_number is compared on "
+            "every generated array (sides 1..16 plus 24..40) with the exact trace form evaluated in Q (1e-9) — that comparison IS the accuracy contract of "
+            "nalgebra's try_svd (arguments pinned by C11_svd_call_pinned); proved only for the real-valued model with an exact SVD oracle, which no float "
+            "SVD is (C11_svd_link, C11_code_path), and for the rounding of the post-SVD arithmetic in any summation order (C11_rounding_partial)",
         "1 <= K <= n": "proved (C11_bounds)", "K = 1 for separable arrays": "proved (C11_separable)",
         "K = n for equal-magnitude (permuted) diagonal": "proved (C11_diagonal, C11_perm_diagonal)",
-        "invariance under complex scale / phases / transposition": "proved (C11_scale, C11_phases, C11_moduli_only, C11_transpose)",
+        "invariance under complex scale / phases / transposition": "proved on the real model (C11_scale, C11_phases, C11_moduli_only, C11_transpose); in binary64 "
+            "validated for scale factors 1e-30..1e30; FAILS beyond about 1e+-75 (sigma^4 under/overflow: known finding, signature scale_invariance/sigma4_over_underflow)",
         "non-square length rejected": "proved for the modelled check (C11_square_check, C11_rejects_nonsquare); implementation checked exhaustively to 2000",
         "setup-level = array-level on sampled amplitudes": "validated_only (Rust-vs-Rust and exact recomputation from the sampled moduli)",
         "binary64 result within 1e-9 of the real value": "validated_only (Coq vm_compute on exact rationals, interval goals)"}
     return finish(ctx, assumptions=[
-        "nalgebra try_svd returns the singular values of an orthogonal factorisation to 1e-10 (checked per input, not proved)",
+        "nalgebra try_svd(false, false, f64::EPSILON, 10_000) is accurate enough that K agrees with the exact trace form to 1e-9 (measured per input, not proved)",
         "binary64 rounding of norm(), of the power sums and of the final quotient is measured (<= 1e-9), not proved",
         "Model/Schmidt.v is hand-written; tied to src/math/schmidt.rs by Gen/SchmidtSrc.v (shape translation) and by the correspondence cases"])
